@@ -97,12 +97,17 @@ class C03(core.Prop):
             for legacy in (True, False):
                 for ll in ((1,) if tier == 'quick' else (0, 1)):
                     out.append({'mode': 'pipe', 'case': s, 'legacy': legacy, 'll': ll})
+        # the same pipeline entered through the other constructors (fragments read separately; base graph handed over)
+        pipes = [x for x in out if x['mode'] == 'pipe']
+        for i, x in enumerate([y for y in pipes if y['ll'] == 1 and len(y['case']['cut']) == 1][::(3 if tier == 'quick' else 2)]):
+            out.append(dict(x, entry=('dicts', 'graph_rev')[(i // 2) % 2]))
         return out
 
     # ------------------------------------------------------------------
     def build(self, shape):
         if shape['mode'] == 'pipe':
-            r = pl.render_case(shape['case'], label_len=shape['ll'], distinct_labels=False, kinds='$<>')
+            r = pl.render_case(shape['case'], label_len=shape['ll'], distinct_labels=False, kinds='$<>',
+                               indep_labels=bool(shape.get('entry')) and not shape['legacy'] and shape['ll'] > 0)
             written = {}
             for bi, amap in enumerate(r.atom_maps):
                 for ti, a in enumerate(amap):
@@ -132,7 +137,7 @@ class C03(core.Prop):
         if shape['mode'] == 'pipe':
             # history inside one process: the same string is first resolved under the other matching convention
             core.guard(pl.run_resolver, M, inp['text'], legacy=not shape['legacy'])
-            return core.guard(pl.run_resolver, M, inp['text'], legacy=shape['legacy'])
+            return core.guard(pl.run_resolver, M, inp['text'], legacy=shape['legacy'], entry=shape.get('entry', 'string'))
 
         def run(legacy=None):
             legacy = shape['legacy'] if legacy is None else legacy
@@ -270,6 +275,10 @@ class C03(core.Prop):
                 cl.append(('bond_order_annotated', bor(order == dig(x[-1]), (False if legacy else order == dig(y[-1])))))
         for e, o in base.items():
             cl.append(('count_not_above_edge_order', per_edge.get(e, 0) <= o))
+            # in these cases every unit of a base edge's order stands for one cut bond with its own compatible descriptor
+            # pair, so "exactly that many" is reached (the maximality clause of the unit drive, in its simple form)
+            if len(shape['case']['cut']) == 1:       # a single cut: nothing can be ambiguous under either convention
+                cl.append(('count_reaches_edge_order', per_edge.get(e, 0) >= o))
         for key, lst in used.items():
             cl.append(('descriptor_used_once', len(lst) <= len(inp['written'].get(key, []))))
         return cl
